@@ -30,10 +30,10 @@ def set_keys(case):
 def secret_arg(case):
     form = case.get('secret')
     return NONASCII_SECRET if form == 'nonascii' else (_DEFAULT_KEYS[0].decode('ascii') if form == 'text' else _DEFAULT_KEYS[0])
-VALUES = [1, 0, -5, 3.5, True, None, '', 'x', 'é中', [1, [2, {'a': None}]], {'k': 'v', 'n': [1, 2]}, 'a=b&c?d', '"q"', 10 ** 20,
+VALUES = [1, 0, -5, 3.5, True, False, 1.0, 0.0, [True, False, True], [1, 0, 1], None, '', 'x', 'é中', [1, [2, {'a': None}]], {'k': 'v', 'n': [1, 2]}, 'a=b&c?d', '"q"', 10 ** 20,
           # texts whose JSON contains '>', '?' or '~' at every offset modulo 3 (base64 alphabets differ exactly there)
           'Saved. What next?', '/search?q=clastic&page=2', '<b>Done</b> -> continue', '?', 'a?', 'ab?', '>>>', '~x~y~z~', 'x>y?z~w']
-KEYS = ['a', 'b', 'user', 'k e y', 'é', '_expires_not', 'x=y']
+KEYS = ['a', 'a', 'a', 'b', 'user', 'k e y', 'é', '_expires_not', 'x=y']
 TAMPER = ['none', 'none', 'none', 'flip_tag', 'flip_payload', 'truncate', 'extend', 'swap_sig', 'swap_payload', 'resign_other',
           'random', 'nonascii', 'nonascii_key', 'bad_b64_tag', 'no_sep', 'no_eq', 'replay_old', 'drop', 'quotes', 'bad_value', 'junk_prefix']
 
@@ -115,8 +115,23 @@ def build(case):
             elif op[0] == 'expire':
                 cookie.set_expires(int(state['now'] + op[1]))       # the public JSONCookie API (examples/basic.py logout idiom)
         return Response(json.dumps(given, sort_keys=True), mimetype='application/json')
-    exec('def ep(%s):\n    return _body(%s)\n' % (arg, arg), {'_body': body}, ns)
     mw = SignedCookieMiddleware(arg_name=arg, cookie_name=case['cookie_name'], secret_key=secret_arg(case), expiry=expiry)
+    if case.get('second_cookie'):
+        # a second, independent signed cookie whose name merely BEGINS with the first one's name; the endpoint writes it on
+        # every request and reports what it found in it
+        arg2 = arg + '_prefs'
+        mw2 = SignedCookieMiddleware(arg_name=arg2, cookie_name=mw.cookie_name + '_prefs', secret_key=b'second-key-' * 2)
+
+        def body2(c1, c2):
+            seen2 = dict(c2)
+            c2['p'] = state['n']
+            resp = body(c1)
+            resp.headers['X-Second'] = json.dumps(seen2, sort_keys=True)
+            return resp
+        exec('def ep(%s, %s):\n    return _body2(%s, %s)\n' % (arg, arg2, arg, arg2), {'_body2': body2}, ns)
+        state['second_name'] = mw2.cookie_name
+        return Application([('/', ns['ep'])], middlewares=[mw, mw2]), state, mw.cookie_name
+    exec('def ep(%s):\n    return _body(%s)\n' % (arg, arg), {'_body': body}, ns)
     return Application([('/', ns['ep'])], middlewares=[mw]), state, mw.cookie_name
 
 
@@ -190,20 +205,29 @@ def impl(case):
     cm.time = FakeTime
     out = []
     cur, old = None, None
+    jar2 = None
     try:
-        for step in case['steps']:
+        for n_step, step in enumerate(case['steps']):
+            state['n'] = n_step
             clock['now'] += step['advance']
             sent = tamper(step['tamper'], cur, old, rng)
             state['ops'] = step['ops']
             state['now'] = clock['now']
             env = wsgi.environ('/')
+            cookies = []
             if sent is not None:
-                env['HTTP_COOKIE'] = '%s=%s' % (cname, sent.encode('utf8').decode('latin-1'))
+                cookies.append('%s=%s' % (cname, sent.encode('utf8').decode('latin-1')))
+            if jar2 is not None:
+                cookies.append('%s=%s' % (state['second_name'], jar2))
+            if cookies:
+                env['HTTP_COOKIE'] = '; '.join(cookies)
             r = wsgi.call(app, env)
             sc_headers = r.all_headers('Set-Cookie')
             new = None
             for h in sc_headers:
                 name, _, rest = h.partition('=')
+                if state.get('second_name') and name == state['second_name']:
+                    jar2 = rest.split(';', 1)[0]
                 if name == cname:
                     val = rest.split(';', 1)[0]
                     new = val.strip('"') if val.startswith('"') else val
@@ -213,7 +237,13 @@ def impl(case):
                 given = json.loads(r.body.decode('utf8')) if r.code == 200 else None
             except Exception:
                 given = None
-            out.append({'status': r.code, 'exc': type(r.exc).__name__ if r.exc else None, 'given': given, 'sent': sent,
+            second = None
+            if state.get('second_name'):
+                try:
+                    second = json.loads(r.header('X-Second')) if r.header('X-Second') else 'missing'
+                except Exception:
+                    second = 'unreadable'
+            out.append({'second': second, 'status': r.code, 'exc': type(r.exc).__name__ if r.exc else None, 'given': given, 'sent': sent,
                         'set_cookie': new, 'now': clock['now']})
             if new is not None:
                 old, cur = cur, new
@@ -240,10 +270,18 @@ def oracle(case, obs):
                 want = dict((k, v) for k, v in verdict.items() if k != '_expires')
             else:
                 want = {}
-        if o['given'] != want:
+        if not same(o['given'], want):
             return ('%s: the endpoint was given %r for cookie %r; intact, unexpired, server-signed contents are %r'
                     % (what, o['given'], o['sent'], want), 'contents')
     return None
+
+
+def same(a, b):
+    """type-exact equality of JSON-compatible values: true is not 1, 1 is not 1.0 (Python's == conflates them)"""
+    try:
+        return json.dumps(a, sort_keys=True) == json.dumps(b, sort_keys=True)
+    except Exception:
+        return a == b
 
 
 def history_oracle(case, obs):
@@ -251,12 +289,18 @@ def history_oracle(case, obs):
     untouched) is presented exactly what the application stored over its previous responses, until that expires"""
     numeric = None if isinstance(case['expiry'], str) else case['expiry'][1]
     jar, jar_exp = {}, None
+    if case.get('second_cookie'):
+        for n, o in enumerate(obs):
+            want2 = {} if n == 0 else {'p': n - 1}
+            if o.get('given') is not None and not same(o.get('second'), want2):
+                return ('request %d: the second signed cookie (its name begins with the first one\'s) holds %r; the application stored %r '
+                        'in it at the previous request' % (n, o.get('second'), want2), 'second-cookie')
     for n, (step, o) in enumerate(zip(case['steps'], obs)):
         if o['given'] is None:
             return None                   # an error response: the per-request oracle reports it
         if step['tamper'] == 'none' or n == 0:
             want = {} if (jar_exp is not None and o['now'] > jar_exp) else jar
-            if o['given'] != want:
+            if not same(o['given'], want):
                 return ('request %d (clock %s) by an honest client: the endpoint was given %r; over its previous responses the '
                         'application stored %r%s' % (n, o['now'], o['given'], jar,
                                                      ' (valid until %s)' % jar_exp if jar_exp is not None else ''), 'history')
@@ -305,7 +349,7 @@ def gen_case(rng, tier):
                 ops.append(['clear'])
         adv = rng.choice([0, 1, 1, 10, 49, 50, 51, 99, 100, 101, 500])
         steps.append({'ops': ops, 'advance': adv, 'tamper': rng.choice(TAMPER)})
-    return {'secret': rng.choice(['bytes', 'bytes', 'text', 'nonascii']), 'expiry': ex, 'steps': steps, 'seed': rng.randrange(10 ** 6), 'arg_name': rng.choice(['cookie', 'session', 'sess_1']),
+    return {'second_cookie': rng.random() < 0.3, 'secret': rng.choice(['bytes', 'bytes', 'text', 'nonascii']), 'expiry': ex, 'steps': steps, 'seed': rng.randrange(10 ** 6), 'arg_name': rng.choice(['cookie', 'session', 'sess_1']),
             'cookie_name': rng.choice([None, 'sid', 'my-cookie'])}
 
 
@@ -391,7 +435,7 @@ def run(rep, b, tier, seed, only_cases=None):
                 except Exception as e:  # noqa
                     givens = 'unreadable %s' % e
                 real = [r['given'] for r in obs[i]]
-                if givens != real:
+                if not same(givens, real):
                     nh += 1
                     if nh <= 3:
                         rep.broken('correspondence cookiehist: the model run over the whole history (its own jar) gives the endpoint %r; '
@@ -413,7 +457,7 @@ def run(rep, b, tier, seed, only_cases=None):
                 stored = None if t[1] == b'None' else dict((kv[0].decode('utf8'), json.loads(kv[1].decode('utf8'))) for kv in t[1][0])
             except Exception as e:  # noqa
                 given, stored = 'unreadable %s' % e, None
-            ok = (given == r['given'])
+            ok = same(given, r['given'])
             if ok:
                 got_rc, got_verdict = classify(r['set_cookie'], None) if r['set_cookie'] is not None else (None, None)
                 if stored is None:
@@ -422,7 +466,7 @@ def run(rep, b, tier, seed, only_cases=None):
                     # an empty dict is serialized as "tag?" whose single empty item parses as an empty cookie
                     ok = r['set_cookie'] is not None and r['set_cookie'].endswith('?')
                 else:
-                    ok = got_verdict is not None and dict((kk, vv) for kk, vv in got_verdict.items()) == stored
+                    ok = got_verdict is not None and same(dict((kk, vv) for kk, vv in got_verdict.items()), stored)
             if not ok:
                 ndiff += 1
                 if ndiff <= 5:
